@@ -134,7 +134,7 @@ def match_known(v, known):
     return None
 
 
-def run_property(prop, tier, rule_mod, configs, replay=None):
+def run_property(prop, tier, rule_mod, configs, replay=None, selftest=None):
     t0 = time.time()
     seed = int(os.environ.get("VERIF_SEED", "0") or 0)
     progs, infos = {}, {}
@@ -186,6 +186,8 @@ def run_property(prop, tier, rule_mod, configs, replay=None):
         "notes": ctx.notes[:40],
         "exhaustive": bool(getattr(rule_mod, "EXHAUSTIVE", False)),
     }
+    if selftest is not None:
+        cov["selftest"] = selftest
     if level == "proof":
         cov["checker_cmd"] = "./check %s --tier %s" % (prop, tier)
         cov["trusted_base"] = list(getattr(rule_mod, "TRUSTED", []))
@@ -196,8 +198,9 @@ def run_property(prop, tier, rule_mod, configs, replay=None):
         "assumptions": ctx.assumptions + list(getattr(rule_mod, "ASSUMPTIONS", [])),
         "wall_s": round(wall, 3), "violations": len(new),
     }
-    os.makedirs(os.path.join(VERIF, "evidence"), exist_ok=True)
-    evp = os.path.join(VERIF, "evidence", "%s.json" % prop)
+    evdir = os.environ.get("MSQLX_EVIDENCE_DIR") or os.path.join(VERIF, "evidence")
+    os.makedirs(evdir, exist_ok=True)
+    evp = os.path.join(evdir, "%s.json" % prop)
     tmp = evp + ".tmp.%d" % os.getpid()
     with open(tmp, "w") as fh:
         json.dump(ev, fh, indent=1, default=str)
